@@ -53,7 +53,7 @@ Theorem C20_judgement_transfer : forall c o, C20c.agree (c, o) = true -> C20c.ok
 Proof. exact JudgeC20P.C20_judgement_transfer. Qed.
 
 
-(* ---- source tie (DESIGN 11.8): definitions REGENERATED from the Rust source text by bin/rs2v.py on every run
+(* ---- source tie (DESIGN 11.7): definitions REGENERATED from the Rust source text by bin/rs2v.py on every run
    (coq/Generated/*.v) coincide with the hand-written model ---- *)
 From BEI Require Generated.ValueSrc Generated.EventsSrc Generated.TrackerSrc Proofs.SrcTieP.
 Theorem C20_source_convert : forall v d, Value.veq (ValueSrc.convert_src v d) (Value.convert d v).
